@@ -47,7 +47,9 @@ def module_with_aliases(ode, backend, remove_unused):
     from gotranx.codegen.c import Format as CF
     from gotranx.schemes import get_scheme
 
-    base = models.generate(ode, backend, remove_unused=remove_unused)
+    # explicit_euler itself comes out of get_code (the generator instance has produced rhs / monitor_values before it); the aliases
+    # come from a fresh generator that is only asked for schemes
+    base = models.generate(ode, backend, remove_unused=remove_unused, scheme=["explicit_euler"])
     if backend == "c":
         cg = CCodeGenerator(ode, format=CF.none, remove_unused=remove_unused)
     elif backend == "jax":
@@ -55,7 +57,7 @@ def module_with_aliases(ode, backend, remove_unused):
     else:
         cg = PythonCodeGenerator(ode, format=PF.none, remove_unused=remove_unused)
     parts = [base]
-    for a in ALIASES:
+    for a in ALIASES[1:]:
         parts.append(models.stage("codegen", lambda: cg.scheme(get_scheme(a))))
     code = "\n".join(parts)
     return {"c": models.CMod, "jax": models.JaxMod, "numpy": models.PyMod}[backend](code)
